@@ -5,6 +5,7 @@ package props
 import (
 	"bytes"
 	"encoding/binary"
+	"encoding/json"
 	"fmt"
 	"strconv"
 	"strings"
@@ -179,6 +180,13 @@ func runE2E(s e2eScript, id int, loader bool) (sig, msg string) {
 	}()
 	node := &slot.SyncNode{Id: id, Source: src.Addr(), SourcePassword: srcSentinel, Target: []string{tgt.Addr()}, TargetPassword: tgtSentinel, SlotLeftBoundary: -1, SlotRightBoundary: -1}
 	ds := dbSync.NewDbSyncer(node, 9320, semaphore.NewWeighted(4))
+	// the per-syncer status document as it looks after the run (restarts included) is scanned for the password sentinels (C19)
+	defer func() {
+		if b, err := json.Marshal(ds.GetExtraInfo()); err == nil {
+			logcap.Cap.Scan("DbSyncer.GetExtraInfo after the run", b)
+		}
+		logcap.Cap.Scan("DbSyncer.GetExtraInfo after the run (%v)", []byte(fmt.Sprintf("%v", ds.GetExtraInfo())))
+	}()
 	gidCh := make(chan int64, 1)
 	logcap.Start(func() { gidCh <- logcap.Gid(); ds.Sync() })
 	gid := <-gidCh
